@@ -198,6 +198,23 @@ def conditions(k):
                                         yield f"{s} {j2} {c3}", f | {"three-comparisons"}
 
 
+def nested_conditions():
+    """three comparisons with one parenthesised sub-group (its members parenthesised or not) on either side of the outer operator"""
+    forms = ["(({a}) {j} ({b})) {k} {c}", "{c} {k} (({a}) {j} ({b}))", "({a} {j} {b}) {k} {c}", "{c} {k} ({a} {j} {b})", "NOT (({a}) {j} ({b})) {k} {c}", "(({a}) {j} ({b}))", "(({a} {j} {b}))",
+             "((({a})) {j} {b}) {k} ({c})", "({a}) {j} (({b}) {k} ({c}))", "(({a}) {j} ({b})) {k} (({c}) {j} ({a}))", "NOT (({a}) {j} ({b}))", "({c} {k} ({a})) {j} ({b})"]
+    seen = set()
+    for a in ("A = 1", "A <> B"):
+        for b in ("B = 2", "B > 0"):
+            for c in ("A > 0", "B = 1"):
+                for j in ("AND", "OR"):
+                    for k in ("AND", "OR"):
+                        for form in forms:
+                            t = form.format(a=a, b=b, c=c, j=j, k=k)
+                            if t not in seen:
+                                seen.add(t)
+                                yield t, {"cond", "nested-parens"} | ({"not-in-cond"} if t.startswith("NOT") else set())
+
+
 def cond_features(c):
     f = set()
     t = c.strip()
@@ -353,7 +370,7 @@ def gen_functions(run):
         for f2 in NUM1:
             for a in ("4", "-2.5", "0.25"):
                 cases.append({"text": f"10 X={a}:Z={f1}({f2}(X))+1\n", "features": {"function", "nested", "fn:" + f1, "fn:" + f2} | ({"fn:FIX-nonint"} if "FIX" in (f1, f2) else set()), "origin": f"{f1}({f2}({a}))"})
-    sfun = [("LEN(S$)", "n"), ("ASC(S$)", "n"), ("VAL(T$)", "n"), ("INSTR(1,S$,\"B\")", "n"), ("INSTR(2,S$+S$,\"AB\")", "n"), ("LEFT$(S$,2)", "s"), ("RIGHT$(S$,1)", "s"), ("MID$(S$,2,1)", "s"), ("CHR$(66)", "s"),
+    sfun = [("LEN(S$)", "n"), ("ASC(S$)", "n"), ("VAL(T$)", "n"), ("INSTR(1,S$,\"B\")", "n"), ("INSTR(1,S$,\"C\")", "n"), ("INSTR(1,S$,\"BC\")", "n"), ("INSTR(1,S$,S$)", "n"), ("INSTR(3,S$,\"C\")", "n"), ("INSTR(4,S$,\"C\")", "n"), ("INSTR(2,S$+S$,\"AB\")", "n"), ("LEFT$(S$,2)", "s"), ("RIGHT$(S$,1)", "s"), ("MID$(S$,2,1)", "s"), ("CHR$(66)", "s"),
             ("STR$(7)", "s"), ("HEX$(255)", "s"), ("HEX$(10)", "s"), ("HEX$(4096)", "s"), ("STRING$(3,\"Z\")", "s"), ("STRING$(2,S$)", "s")]
     for e, k in sfun:
         tgt = "Z" if k == "n" else "Z$"
@@ -456,6 +473,9 @@ def run(run):
             for c, f in conditions(k):
                 for form in ("if", "ifelse", "ifgoto"):
                     conds.append((c, form, f | {"form:" + form}))
+        for c, f in nested_conditions():
+            for form in ("if", "ifelse", "ifgoto"):
+                conds.append((c, form, f | {"form:" + form}))
         for bare in ("A", "A+B", "A AND B", "NOT A", "A*B", "A-B", "(A)", "-A", "A OR B", "NOT A AND B"):
             for form in ("if", "ifelse", "ifgoto"):
                 conds.append((bare, form, {"cond", "bare-numeric-condition", "form:" + form} | ({"logic"} if any(w in bare for w in ("AND", "OR", "NOT")) else set())))
